@@ -5,6 +5,46 @@ from pyvc.contract import Bytes, Contract, Int, Lemma, Loop, Obj, Str, UF
 from pyvc.runner import Bounded
 from specs.digits import chars, codes, digits, digits_f
 
+from pyvc.replay import py_replay  # noqa: E402
+
+_RNG = """
+from passlib.utils import getrandbytes, getrandstr
+class R:
+    def __init__(self, v): self.v = v; self.calls = 0
+    def getrandbits(self, k): self.calls += 1; return self.v % (1 << k) if k else 0
+    def randrange(self, a, b): self.calls += 1; return a + self.v % (b - a)
+def digits(v, L, n):
+    out = []
+    for _ in range(n): out.append(v % L); v //= L
+    return out
+"""
+
+
+def _search_bytes(seed):
+    out = []
+    for count in (seed.get("count") or 2, 1, 2, 3):
+        for draw in [seed.get("draw") or 0, 0x0102, 0xA5C3F1, 2340, (1 << (8 * max(count, 1))) - 1]:
+            out.append({"count": max(0, min(int(count), 6)), "draw": int(draw)})
+    return out
+
+
+def _search_str(seed):
+    out = []
+    for cs in ("ab", "abc", "0123456789", "x"):
+        for count in (0, 1, 2, 3, 5):
+            for draw in (0, 1, 7, 123456789):
+                out.append({"charset": cs, "count": count, "draw": draw})
+    out += [{"charset": "ab", "count": -1, "draw": 0}, {"charset": "", "count": 2, "draw": 0}]
+    return out
+
+
+REPLAY_BYTES = py_replay(_RNG, "rng = R(V['draw']); r = getrandbytes(rng, V['count'])",
+                         "exc is None and r == bytes(digits(V['draw'] % (1 << (8 * V['count'])) if V['count'] else 0, 256, V['count'])) and rng.calls == (1 if V['count'] else 0)",
+                         {"count": 2, "draw": 2340}, search=_search_bytes)
+REPLAY_STR = py_replay(_RNG, "rng = R(V['draw']); r = getrandstr(rng, V['charset'], V['count'])",
+                       "(isinstance(exc, ValueError) if (V['count'] < 0 or len(V['charset']) == 0) else (exc is None and r == (V['charset'] * V['count'] if len(V['charset']) == 1 else ''.join(V['charset'][d] for d in digits(V['draw'] % (len(V['charset']) ** V['count']), len(V['charset']), V['count'])))))",
+                       {"charset": "ab", "count": 2, "draw": 1}, search=_search_str)
+
 LEVEL = "proof"
 EXPLANATION = (
     "getrandbytes/getrandstr proved (loop invariants, all counts, all draws) to return exactly the base-256 / "
@@ -39,6 +79,7 @@ CONTRACTS = [
                 "__out__ + digits(value, 256, count - i) == digits(rng.getrandbits(count << 3), 256, count)",
                 "0 <= i <= count", "value >= 0", "len(__out__) == i"],
             decreases="count - i")},
+        replay=REPLAY_BYTES,
         descr="every count >= 0, every value of the draw",
     ),
     Contract(
@@ -55,6 +96,7 @@ CONTRACTS = [
                 "__out__ + chars(charset, value, letters, count - i) == chars(charset, rng.randrange(0, letters ** count), letters, count)",
                 "0 <= i <= count", "value >= 0", "letters == len(charset)", "letters >= 2"],
             decreases="count - i", ghost_step="str")},
+        replay=REPLAY_STR,
         descr="text alphabets of any size, any count",
     ),
     Contract(
